@@ -3,88 +3,99 @@
 From Fibre Require Import Common.Base Chan.MpmcB Proofs.MpmcBBase Proofs.MpmcBInv Proofs.MpmcBStep.
 From Coq Require Import ZifyBool ZifyNat ZifyN.
 
-(** * the configuration (capacity, repair switches) never changes *)
-Definition cfg (s s' : st) : Prop := fx s' = fx s /\ cap s' = cap s.
+(** * the configuration (capacity, repair switches) never changes; taints are never cleared *)
+Definition cfg (s s' : st) : Prop := fx s' = fx s /\ cap s' = cap s /\ tle (tn s) (tn s').
 
-Lemma cfg_refl s : cfg s s. Proof. split; reflexivity. Qed.
+Ltac tle_any :=
+  first [ apply tle_refl | intros; apply tle_set_t03 | intros; apply tle_set_t03f | intros; apply tle_set_t06
+        | intros; apply tle_set_t07 | intros; apply tle_set_t08 | intros; apply tle_set_t12 | intros; apply tle_set_t33 ].
+Ltac cfg_eq := split; [reflexivity | split; [reflexivity | tle_any]].
+
+Lemma cfg_refl s : cfg s s. Proof. cfg_eq. Qed.
 Lemma cfg_trans a b c : cfg a b -> cfg b c -> cfg a c.
-Proof. intros [A B] [C D]. split; congruence. Qed.
+Proof. intros (A & B & T1) (C & D & T2). split; [congruence | split; [congruence | eapply tle_trans; eauto]]. Qed.
 
 Lemma cfg_mark_bad b s : cfg s (mark_bad b s).
-Proof. unfold mark_bad. destruct b; split; reflexivity. Qed.
-Lemma cfg_taint g b s : cfg s (taint g b s).
-Proof. unfold taint. destruct b; split; reflexivity. Qed.
+Proof. unfold mark_bad. destruct b; cfg_eq. Qed.
+Lemma cfg_taint g b s : (forall t, tle t (g t)) -> cfg s (taint g b s).
+Proof. intros Hg. unfold taint. destruct b; [|cfg_eq]. split; [reflexivity | split; [reflexivity | apply Hg]]. Qed.
 
 Lemma cfg_wake_one_recv s : cfg s (wake_one_recv s).
-Proof. destruct (wake_one_recv_frame s) as (A & B & _). split; assumption. Qed.
+Proof.
+  destruct (wake_one_recv_frame s) as (A & B & _ & _ & _ & _ & _ & _ & _ & _ & _ & _ & _ & T & _).
+  split; [assumption | split; [assumption | rewrite T; apply tle_refl]].
+Qed.
 Lemma cfg_wake_one_send s : cfg s (wake_one_send s).
-Proof. destruct (wake_one_send_frame s) as (A & B & _). split; assumption. Qed.
+Proof.
+  destruct (wake_one_send_frame s) as (A & B & _ & _ & _ & _ & _ & _ & _ & _ & _ & _ & _ & T & _).
+  split; [assumption | split; [assumption | rewrite T; apply tle_refl]].
+Qed.
 
 Lemma cfg_mark_all new l : forall s, cfg s (mark_all new l s).
 Proof.
   induction l as [|[f w] t IH]; intros s; cbn [mark_all]; [apply cfg_refl|].
   destruct (getF f s) as [x|]; [|apply IH].
   destruct (is_waiting (f_state x)); [|apply IH].
-  eapply cfg_trans; [|apply IH]. eapply cfg_trans; [|apply cfg_mark_bad]. split; reflexivity.
+  eapply cfg_trans; [|apply IH]. eapply cfg_trans; [|apply cfg_mark_bad]. cfg_eq.
 Qed.
 
 Lemma cfg_try_send_core v s : cfg s (fst (try_send_core v s)).
 Proof.
   unfold try_send_core. destruct (rc s =? 0); [apply cfg_refl|]. destruct (is_full s); [apply cfg_refl|].
-  cbn [fst]. eapply cfg_trans; [apply cfg_wake_one_recv|]. split; reflexivity.
+  cbn [fst]. eapply cfg_trans; [apply cfg_wake_one_recv|]. cfg_eq.
 Qed.
 
 Lemma cfg_try_recv_core s : cfg s (fst (try_recv_core s)).
 Proof.
   unfold try_recv_core. destruct (q s) as [|v t]; [destruct (sc s =? 0); apply cfg_refl|].
-  cbn [fst]. eapply cfg_trans; [|apply cfg_wake_one_send]. split; reflexivity.
+  cbn [fst]. eapply cfg_trans; [|apply cfg_wake_one_send]. cfg_eq.
 Qed.
 
 Lemma cfg_do_close h x s : cfg s (fst (do_close h x s)).
 Proof.
   unfold do_close. destruct (h_closed x); [apply cfg_refl|].
   destruct (h_tx x).
-  - unfold close_tx. cbn [sc setH with_hs]. destruct (sc s =? 0); [split; reflexivity|].
+  - unfold close_tx. cbn [sc setH with_hs]. destruct (sc s =? 0); [cfg_eq|].
     cbn [fst]. destruct (sc (with_sc (sc s - 1) (setH h (set_closed true x) s)) =? 0).
-    + eapply cfg_trans; [|apply cfg_mark_all]. split; reflexivity.
-    + split; reflexivity.
-  - unfold close_rx. cbn [rc setH with_hs]. destruct (rc s =? 0); [split; reflexivity|].
+    + eapply cfg_trans; [|apply cfg_mark_all]. cfg_eq.
+    + cfg_eq.
+  - unfold close_rx. cbn [rc setH with_hs]. destruct (rc s =? 0); [cfg_eq|].
     cbn [fst]. destruct (rc (with_rc (rc s - 1) (setH h (set_closed true x) s)) =? 0).
-    + eapply cfg_trans; [|apply cfg_mark_all]. split; reflexivity.
-    + destruct (asq (with_rc (rc s - 1) (setH h (set_closed true x) s))) as [|[f w] t]; [split; reflexivity|].
-      destruct (getF f (with_rc (rc s - 1) (setH h (set_closed true x) s))) as [y|]; [|split; reflexivity].
-      destruct (is_waiting (f_state y)); [|split; reflexivity].
-      eapply cfg_trans; [|apply cfg_mark_bad]. split; reflexivity.
+    + eapply cfg_trans; [|apply cfg_mark_all]. cfg_eq.
+    + destruct (asq (with_rc (rc s - 1) (setH h (set_closed true x) s))) as [|[f w] t]; [cfg_eq|].
+      destruct (getF f (with_rc (rc s - 1) (setH h (set_closed true x) s))) as [y|]; [|cfg_eq].
+      destruct (is_waiting (f_state y)); [|cfg_eq].
+      eapply cfg_trans; [|apply cfg_mark_bad]. cfg_eq.
 Qed.
 
 Lemma cfg_cancel_reg f x s : cfg s (cancel_reg f x s).
 Proof.
   unfold cancel_reg. destruct (f_reg x); [|apply cfg_refl].
-  destruct (f_recv x); destruct (is_success (f_state x)); try (split; reflexivity).
-  - match goal with |- context [fx12 ?a] => destruct (fx12 a) end; [|split; reflexivity].
-    match goal with |- context [match q ?a with _ => _ end] => destruct (q a) end; [split; reflexivity|].
-    eapply cfg_trans; [|apply cfg_wake_one_recv]. split; reflexivity.
-  - match goal with |- context [fx12 ?a] => destruct (fx12 a) end; [|split; reflexivity].
-    match goal with |- context [is_full ?a] => destruct (is_full a) end; [split; reflexivity|].
-    eapply cfg_trans; [|apply cfg_wake_one_send]. split; reflexivity.
+  destruct (f_recv x); destruct (is_success (f_state x)); try (cfg_eq).
+  - match goal with |- context [fx12 ?a] => destruct (fx12 a) end; [|cfg_eq].
+    match goal with |- context [match q ?a with _ => _ end] => destruct (q a) end; [cfg_eq|].
+    eapply cfg_trans; [|apply cfg_wake_one_recv]. cfg_eq.
+  - match goal with |- context [fx12 ?a] => destruct (fx12 a) end; [|cfg_eq].
+    match goal with |- context [is_full ?a] => destruct (is_full a) end; [cfg_eq|].
+    eapply cfg_trans; [|apply cfg_wake_one_send]. cfg_eq.
 Qed.
 
 Lemma cfg_send_try f w x s : cfg s (fst (send_try f w x s)).
 Proof.
-  unfold send_try. destruct (f_item x) as [v|]; [|split; reflexivity].
+  unfold send_try. destruct (f_item x) as [v|]; [|cfg_eq].
   pose proof (cfg_try_send_core v (setF f (set_item None x) s)) as C.
   destruct (try_send_core v (setF f (set_item None x) s)) as [s1 [| |]]; cbn [fst] in *;
-    (eapply cfg_trans; [|eapply cfg_trans; [exact C|]]; split; reflexivity).
+    (eapply cfg_trans; [|eapply cfg_trans; [exact C|]]; cfg_eq).
 Qed.
 
 Lemma cfg_poll_send f w x s : cfg s (fst (poll_send f w x s)).
 Proof.
   unfold poll_send. destruct (f_reg x); [|apply cfg_send_try].
   destruct (f_state x).
-  - destruct (queued f (asq s)); split; reflexivity.
-  - split; reflexivity.
-  - eapply cfg_trans; [|apply cfg_send_try]. split; reflexivity.
-  - destruct (queued f (asq s)); split; reflexivity.
+  - destruct (queued f (asq s)); cfg_eq.
+  - cfg_eq.
+  - eapply cfg_trans; [|apply cfg_send_try]. cfg_eq.
+  - destruct (queued f (asq s)); cfg_eq.
 Qed.
 
 Lemma cfg_recv_try f w b x s : cfg s (fst (recv_try f w b x s)).
@@ -92,13 +103,13 @@ Proof.
   unfold recv_try.
   pose proof (cfg_try_recv_core s) as C.
   destruct (try_recv_core s) as [s1 [v| |]]; cbn [fst] in *.
-  - eapply cfg_trans; [exact C|]. destruct b; [|split; reflexivity].
-    cbn [fx setF with_fs]. destruct (fx06 (fx s1)); [split; reflexivity|].
-    eapply cfg_trans; [|apply cfg_taint]. split; reflexivity.
-  - eapply cfg_trans; [exact C|]. destruct (queued f (arq s1)); split; reflexivity.
-  - eapply cfg_trans; [exact C|]. destruct b; [|split; reflexivity].
-    cbn [fx setF with_fs]. destruct (fx06 (fx s1)); [split; reflexivity|].
-    eapply cfg_trans; [|apply cfg_taint]. split; reflexivity.
+  - eapply cfg_trans; [exact C|]. destruct b; [|cfg_eq].
+    cbn [fx setF with_fs]. destruct (fx06 (fx s1)); [cfg_eq|].
+    eapply cfg_trans; [|apply (cfg_taint set_t06); tle_any]. cfg_eq.
+  - eapply cfg_trans; [exact C|]. destruct (queued f (arq s1)); cfg_eq.
+  - eapply cfg_trans; [exact C|]. destruct b; [|cfg_eq].
+    cbn [fx setF with_fs]. destruct (fx06 (fx s1)); [cfg_eq|].
+    eapply cfg_trans; [|apply (cfg_taint set_t06); tle_any]. cfg_eq.
 Qed.
 
 Lemma cfg_poll_recv f w x s : cfg s (fst (poll_recv f w x s)).
@@ -106,22 +117,22 @@ Proof.
   unfold poll_recv. destruct (f_reg x); [|apply cfg_recv_try].
   destruct (f_state x); try apply cfg_recv_try.
   cbn [fx with_arq]. destruct (fx08 (fx s)).
-  - eapply cfg_trans; [|apply cfg_recv_try]. split; reflexivity.
-  - cbn [fst]. eapply cfg_trans; [|split; reflexivity]. eapply cfg_trans; [|apply cfg_taint]. split; reflexivity.
+  - eapply cfg_trans; [|apply cfg_recv_try]. cfg_eq.
+  - cbn [fst]. eapply cfg_trans; [|cfg_eq]. eapply cfg_trans; [|apply (cfg_taint set_t08); tle_any]. cfg_eq.
 Qed.
 
 Lemma cfg_step s o : cfg s (fst (step s o)).
 Proof.
   unfold step. set (s1 := with_bad false (with_dk [] (with_wk [] s))).
-  assert (C1 : cfg s s1) by (split; reflexivity). clearbody s1.
+  assert (C1 : cfg s s1) by (cfg_eq). clearbody s1.
   destruct o.
   - (* TrySend *)
     destruct (getH h s1) as [x|]; [|exact C1]. destruct (h_live x); cbn [negb]; [|exact C1].
     destruct (h_tx x); cbn [negb]; [|exact C1]. unfold fresh. cbn [fst snd].
-    destruct (h_closed x); [eapply cfg_trans; [exact C1|]; split; reflexivity|].
+    destruct (h_closed x); [eapply cfg_trans; [exact C1|]; cfg_eq|].
     pose proof (cfg_try_send_core (next s1) (with_next (next s1 + 1) s1)) as C.
     destruct (try_send_core (next s1) (with_next (next s1 + 1) s1)) as [s2 [| |]]; cbn [fst ret] in *;
-      (eapply cfg_trans; [exact C1|]; eapply cfg_trans; [|eapply cfg_trans; [exact C|]]; split; reflexivity).
+      (eapply cfg_trans; [exact C1|]; eapply cfg_trans; [|eapply cfg_trans; [exact C|]]; cfg_eq).
   - (* TryRecv *)
     destruct (getH h s1) as [x|]; [|exact C1]. destruct (h_live x); cbn [negb]; [|exact C1].
     destruct (h_tx x); [exact C1|]. destruct (h_closed x); [exact C1|].
@@ -131,10 +142,10 @@ Proof.
     destruct (getH h s1) as [x|]; [|exact C1]. destruct (h_live x); cbn [negb]; [|exact C1].
     destruct (negb (h_tx x) || h_async x); [exact C1|].
     destruct (negb (rc s1 =? 0) && is_full s1); [exact C1|]. unfold fresh. cbn [fst snd].
-    destruct (h_closed x); [eapply cfg_trans; [exact C1|]; split; reflexivity|].
+    destruct (h_closed x); [eapply cfg_trans; [exact C1|]; cfg_eq|].
     pose proof (cfg_try_send_core (next s1) (with_next (next s1 + 1) s1)) as C.
     destruct (try_send_core (next s1) (with_next (next s1 + 1) s1)) as [s2 [| |]]; cbn [fst ret] in *;
-      (eapply cfg_trans; [exact C1|]; eapply cfg_trans; [|eapply cfg_trans; [exact C|]]; split; reflexivity).
+      (eapply cfg_trans; [exact C1|]; eapply cfg_trans; [|eapply cfg_trans; [exact C|]]; cfg_eq).
   - (* Recv *)
     destruct (getH h s1) as [x|]; [|exact C1]. destruct (h_live x); cbn [negb]; [|exact C1].
     destruct (h_tx x || h_async x); [exact C1|].
@@ -148,13 +159,13 @@ Proof.
     destruct (h_closed x && fx03 (fx s1)); [exact C1|].
     pose proof (cfg_try_recv_core (taint set_t03 (h_closed x) s1)) as C.
     destruct (try_recv_core (taint set_t03 (h_closed x) s1)) as [s2 [v| |]]; cbn [fst ret] in *;
-      (eapply cfg_trans; [exact C1|]; eapply cfg_trans; [apply cfg_taint | exact C]).
+      (eapply cfg_trans; [exact C1|]; eapply cfg_trans; [apply (cfg_taint set_t03); tle_any | exact C]).
   - (* Clone *)
     destruct (getH h s1) as [x|]; [|exact C1]. destruct (h_live x); cbn [negb]; [|exact C1].
     destruct (getH h2 s1); [exact C1|].
-    destruct (h_closed x && fx33 (fx s1)); cbn [ret fst]; [eapply cfg_trans; [exact C1|]; split; reflexivity|].
-    eapply cfg_trans; [exact C1|]. eapply cfg_trans; [apply (cfg_taint set_t33 (h_closed x))|].
-    destruct (h_tx x); split; reflexivity.
+    destruct (h_closed x && fx33 (fx s1)); cbn [ret fst]; [eapply cfg_trans; [exact C1|]; cfg_eq|].
+    eapply cfg_trans; [exact C1|]. eapply cfg_trans; [apply (cfg_taint set_t33 (h_closed x)); tle_any|].
+    destruct (h_tx x); cfg_eq.
   - (* Close *)
     destruct (getH h s1) as [x|]; [|exact C1]. destruct (h_live x); cbn [negb]; [|exact C1].
     pose proof (cfg_do_close h x s1) as C. destruct (do_close h x s1) as [s2 r]. cbn [fst ret] in *.
@@ -164,38 +175,38 @@ Proof.
     destruct (borrowed h s1); [exact C1|].
     pose proof (cfg_do_close h x s1) as C. destruct (do_close h x s1) as [s2 r]. cbn [fst ret] in *.
     eapply cfg_trans; [exact C1|]. eapply cfg_trans; [exact C|].
-    unfold maybe_free. match goal with |- context [any_live ?a] => destruct (any_live a) end; split; reflexivity.
+    unfold maybe_free. match goal with |- context [any_live ?a] => destruct (any_live a) end; cfg_eq.
   - (* Convert *)
     destruct (getH h s1) as [x|]; [|exact C1]. destruct (h_live x); cbn [negb]; [|exact C1].
     destruct (getH h2 s1); [exact C1|]. destruct (borrowed h s1); [exact C1|]. cbn [ret fst].
     eapply cfg_trans; [exact C1|].
-    eapply cfg_trans; [apply (cfg_taint set_t07 (h_closed x && negb (fx07 (fx s1))))|]. split; reflexivity.
+    eapply cfg_trans; [apply (cfg_taint set_t07 (h_closed x && negb (fx07 (fx s1)))); tle_any|]. cfg_eq.
   - (* Observe *)
     destruct (getH h s1) as [x|]; [|exact C1]. destruct (h_live x); exact C1.
   - (* MkSend *)
     destruct (getH h s1) as [x|]; [|exact C1]. destruct (h_live x); cbn [negb]; [|exact C1].
     destruct (negb (h_tx x && h_async x)); [exact C1|]. destruct (getF f s1); [exact C1|].
-    eapply cfg_trans; [exact C1|]. split; reflexivity.
+    eapply cfg_trans; [exact C1|]. cfg_eq.
   - (* MkRecv *)
     destruct (getH h s1) as [x|]; [|exact C1]. destruct (h_live x); cbn [negb]; [|exact C1].
     destruct (negb (negb (h_tx x) && h_async x)); [exact C1|]. destruct (getF f s1); [exact C1|].
-    eapply cfg_trans; [exact C1|]. split; reflexivity.
+    eapply cfg_trans; [exact C1|]. cfg_eq.
   - (* Poll *)
     destruct (getF f s1) as [x|]; [|exact C1]. destruct (f_live x); cbn [negb]; [|exact C1].
     destruct (f_done x); [exact C1|].
     destruct (handle_closed (f_h x) s1 && fx03f (fx s1)).
-    + cbn [ret fst]. eapply cfg_trans; [exact C1|]. eapply cfg_trans; [apply (cfg_cancel_reg f x)|]. split; reflexivity.
+    + cbn [ret fst]. eapply cfg_trans; [exact C1|]. eapply cfg_trans; [apply (cfg_cancel_reg f x)|]. cfg_eq.
     + destruct (f_recv x).
       * pose proof (cfg_poll_recv f w x (taint set_t03f (handle_closed (f_h x) s1) s1)) as C.
         destruct (poll_recv f w x (taint set_t03f (handle_closed (f_h x) s1) s1)) as [s2 r]. cbn [fst ret] in *.
-        eapply cfg_trans; [exact C1|]. eapply cfg_trans; [apply cfg_taint | exact C].
+        eapply cfg_trans; [exact C1|]. eapply cfg_trans; [apply (cfg_taint set_t03f); tle_any | exact C].
       * pose proof (cfg_poll_send f w x (taint set_t03f (handle_closed (f_h x) s1) s1)) as C.
         destruct (poll_send f w x (taint set_t03f (handle_closed (f_h x) s1) s1)) as [s2 r]. cbn [fst ret] in *.
-        eapply cfg_trans; [exact C1|]. eapply cfg_trans; [apply cfg_taint | exact C].
+        eapply cfg_trans; [exact C1|]. eapply cfg_trans; [apply (cfg_taint set_t03f); tle_any | exact C].
   - (* DropF *)
     destruct (getF f s1) as [x|]; [|exact C1]. destruct (f_live x); cbn [negb]; [|exact C1].
     cbn [ret fst]. eapply cfg_trans; [exact C1|]. eapply cfg_trans; [apply (cfg_cancel_reg f x)|].
-    destruct (f_item x); split; reflexivity.
+    destruct (f_item x); cfg_eq.
 Qed.
 
 Lemma cfg_run os : forall s, cfg s (fst (run s os)).
@@ -206,10 +217,10 @@ Proof.
 Qed.
 
 Lemma fx_after c a f os : fx (state_after c a f os) = f.
-Proof. unfold state_after. destruct (cfg_run os (init c a f)) as [A _]. exact A. Qed.
+Proof. unfold state_after. destruct (cfg_run os (init c a f)) as (A & _ & _). exact A. Qed.
 
 Lemma cap_after c a f os : cap (state_after c a f os) = c.
-Proof. unfold state_after. destruct (cfg_run os (init c a f)) as [_ A]. exact A. Qed.
+Proof. unfold state_after. destruct (cfg_run os (init c a f)) as (_ & A & _). exact A. Qed.
 
 (** * C01: conservation (every payload id is in exactly one place), no duplicate, no phantom *)
 Definition ids (n : N) : list N := map N.of_nat (seq 0 (N.to_nat n)).
@@ -351,4 +362,205 @@ Proof.
         assert (is_full s1 = true) by (apply (is_full_spec s1 Hcap); exact Hfull). congruence.
       * destruct Hs as (-> & Hrc). change (rc s2) with (rc s1) in Hrc. rewrite Rrc in Hrc.
         unfold unchanged_data, destroy. st_simpl. rewrite ?Rn, ?Rq, ?Ra, ?Rr, ?Rdr. repeat split; auto.
+Qed.
+
+(* try_recv / recv / recv_timeout *)
+Inductive rkind := KTry | KBlock | KTimed.
+
+Definition recv_spec (k : rkind) (s : st) (h : N) (s' : st) (o : out) : Prop :=
+  forall x, getH h s = Some x -> h_live x = true -> h_tx x = false -> (k <> KTry -> h_async x = false) ->
+  match o_res o with
+  | RVal v => q s = v :: q s' /\ recvd s' = recvd s ++ [v] /\ acc s' = acc s
+              /\ (h_closed x = false \/ (k = KTimed /\ fx03 (fx s) = false /\ t03 (tn s') = true))
+  | REmpty => k = KTry /\ h_closed x = false /\ q s = [] /\ sc s <> 0 /\ unchanged_data s s'
+  | RTimeout => k = KTimed /\ q s = [] /\ sc s <> 0 /\ unchanged_data s s'
+                /\ (h_closed x = false \/ (fx03 (fx s) = false /\ t03 (tn s') = true))
+  | RDisc => unchanged_data s s' /\ (h_closed x = true \/ (q s = [] /\ sc s = 0))
+  | RWouldBlock => k = KBlock /\ q s = [] /\ unchanged_data s s'
+  | _ => False
+  end.
+
+Lemma unchanged_refl s : unchanged_data s s.
+Proof. unfold unchanged_data. auto. Qed.
+
+Lemma try_recv_spec s h : Inv s -> recv_spec KTry s h (fst (step s (TryRecv h))) (snd (step s (TryRecv h))).
+Proof.
+  intros H0. pose proof (Inv_reset s H0) as H1.
+  unfold step. fold (reset s). set (s1 := reset s) in *.
+  unfold recv_spec. intros x Hg Hl Htx _. change (getH h s1 = Some x) in Hg.
+  rewrite Hg, Hl, Htx. cbn [negb].
+  destruct (h_closed x) eqn:Hc.
+  - cbn [ret o_res snd fst]. split; [(unfold unchanged_data; repeat split; reflexivity) | auto].
+  - pose proof (try_recv_core_spec [] s1 H1) as Hs.
+    destruct (try_recv_core s1) as [s3 [v| |]]; cbn [ret o_res snd fst].
+    + destruct Hs as (_ & Hq & Hr & _ & _ & Ha & _). repeat split; auto.
+    + destruct Hs as (-> & Hq & Hsc). repeat split; auto.
+    + destruct Hs as (-> & Hq & Hsc). split; [(unfold unchanged_data; repeat split; reflexivity) | auto].
+Qed.
+
+Lemma recv_blocking_spec s h : Inv s -> recv_spec KBlock s h (fst (step s (Recv h))) (snd (step s (Recv h))).
+Proof.
+  intros H0. pose proof (Inv_reset s H0) as H1.
+  unfold step. fold (reset s). set (s1 := reset s) in *.
+  unfold recv_spec. intros x Hg Hl Htx Has. assert (Ha : h_async x = false) by (apply Has; discriminate).
+  change (getH h s1 = Some x) in Hg. rewrite Hg, Hl, Htx, Ha. cbn [negb orb].
+  match goal with |- context [if ?c then ret s1 RWouldBlock else _] => destruct c eqn:Eb end.
+  - cbn [ret o_res snd fst]. apply andb_prop in Eb. destruct Eb as [E1 _]. apply (lenq0 s1) in E1.
+    split; [reflexivity|]. split; [exact E1 | (unfold unchanged_data; repeat split; reflexivity)].
+  - destruct (h_closed x) eqn:Hc.
+    + cbn [ret o_res snd fst]. split; [(unfold unchanged_data; repeat split; reflexivity) | auto].
+    + pose proof (try_recv_core_spec [] s1 H1) as Hs.
+      destruct (try_recv_core s1) as [s3 [v| |]]; cbn [ret o_res snd fst].
+      * destruct Hs as (_ & Hq & Hr & _ & _ & Hac & _). repeat split; auto.
+      * destruct Hs as (-> & Hq & Hsc). split; [reflexivity|]. split; [exact Hq | (unfold unchanged_data; repeat split; reflexivity)].
+      * destruct Hs as (-> & Hq & Hsc). split; [(unfold unchanged_data; repeat split; reflexivity) | auto].
+Qed.
+
+Lemma tn_taint_t03 b s : t03 (tn (taint set_t03 b s)) = b || t03 (tn s).
+Proof. unfold taint. destruct b; reflexivity. Qed.
+
+Lemma recv_timeout_spec s h : Inv s -> recv_spec KTimed s h (fst (step s (RecvTimeout h))) (snd (step s (RecvTimeout h))).
+Proof.
+  intros H0. pose proof (Inv_reset s H0) as H1.
+  unfold step. fold (reset s). set (s1 := reset s) in *.
+  unfold recv_spec. intros x Hg Hl Htx Has. assert (Ha : h_async x = false) by (apply Has; discriminate).
+  change (getH h s1 = Some x) in Hg. rewrite Hg, Hl, Htx, Ha. cbn [negb orb].
+  change (fx s1) with (fx s).
+  destruct (h_closed x && fx03 (fx s)) eqn:Ec.
+  - cbn [ret o_res snd fst]. apply andb_prop in Ec. split; [(unfold unchanged_data; repeat split; reflexivity) | tauto].
+  - assert (Ht : InvH [] (taint set_t03 (h_closed x) s1)).
+    { apply InvH_taint; [exact H1 | apply tle_set_t03 |].
+      intros E. apply ok_set_t03; [apply (w_taint s1 (proj1 (proj2 H1)))|]. rewrite E in Ec. exact Ec. }
+    set (s2 := taint set_t03 (h_closed x) s1) in *.
+    assert (E2 : q s2 = q s /\ recvd s2 = recvd s /\ acc s2 = acc s /\ sc s2 = sc s).
+    { subst s2. unfold taint. destruct (h_closed x); auto. }
+    destruct E2 as (Eq & Er & Ea & Esc).
+    assert (Hcl : h_closed x = false \/ (fx03 (fx s) = false /\ t03 (tn s2) = true)).
+    { destruct (h_closed x) eqn:Hc; [right|left; reflexivity]. cbn [andb] in Ec. split; [exact Ec|].
+      subst s2. rewrite tn_taint_t03. reflexivity. }
+    pose proof (try_recv_core_spec [] s2 Ht) as Hs.
+    destruct (try_recv_core s2) as [s3 [v| |]]; cbn [ret o_res snd fst].
+    + destruct Hs as (_ & Hq & Hr & Fr & _ & Hac & _).
+      destruct Fr as (_ & _ & _ & _ & _ & _ & _ & _ & _ & Ftn & _).
+      rewrite Eq in Hq. rewrite Er in Hr. rewrite Ea in Hac. rewrite Ftn.
+      split; [exact Hq|]. split; [exact Hr|]. split; [exact Hac|]. destruct Hcl as [C|[C1 C2]]; [left; exact C | right; auto].
+    + destruct Hs as (-> & Hq & Hsc). rewrite Eq in Hq. rewrite Esc in Hsc.
+      split; [reflexivity|]. split; [exact Hq|]. split; [exact Hsc|]. split; [|exact Hcl].
+      unfold unchanged_data. auto.
+    + destruct Hs as (-> & Hq & Hsc). rewrite Eq in Hq. rewrite Esc in Hsc.
+      split; [unfold unchanged_data; auto | right; auto].
+Qed.
+
+(** * structural facts: which steps can push, pop, or raise the sender count *)
+(* no push, sender count does not grow *)
+Definition np (s s' : st) : Prop :=
+  sc s' <= sc s /\ (q s' = q s \/ exists v, q s = v :: q s' /\ recvd s' = recvd s ++ [v]) /\
+  (q s' = q s -> recvd s' = recvd s).
+
+Lemma np_refl s : np s s.
+Proof. unfold np. split; [lia|]. auto. Qed.
+
+Lemma np_same s s' : sc s' = sc s -> q s' = q s -> recvd s' = recvd s -> np s s'.
+Proof. intros A B C. unfold np. rewrite A, B, C. split; [lia|]. auto. Qed.
+
+(* composition when the first part does not touch the queue *)
+Lemma np_trans_l a b c : sc b <= sc a -> q b = q a -> recvd b = recvd a -> np b c -> np a c.
+Proof. intros A B C (D & E & F). unfold np. rewrite <- B, <- C. split; [lia|]. auto. Qed.
+
+Lemma np_trans_r a b c : np a b -> sc c <= sc b -> q c = q b -> recvd c = recvd b -> np a c.
+Proof. intros (D & E & F) A B C. unfold np. rewrite B, C. split; [lia|]. auto. Qed.
+
+Lemma same_mark_bad b s : sc (mark_bad b s) = sc s /\ q (mark_bad b s) = q s /\ recvd (mark_bad b s) = recvd s.
+Proof. unfold mark_bad. destruct b; auto. Qed.
+Lemma same_taint g b s : sc (taint g b s) = sc s /\ q (taint g b s) = q s /\ recvd (taint g b s) = recvd s.
+Proof. unfold taint. destruct b; auto. Qed.
+Lemma same_wake_one_recv s : sc (wake_one_recv s) = sc s /\ q (wake_one_recv s) = q s /\ recvd (wake_one_recv s) = recvd s.
+Proof. destruct (wake_one_recv_frame s) as (_&_&A&B&_&_&_&_&_&C&_). auto. Qed.
+Lemma same_wake_one_send s : sc (wake_one_send s) = sc s /\ q (wake_one_send s) = q s /\ recvd (wake_one_send s) = recvd s.
+Proof. destruct (wake_one_send_frame s) as (_&_&A&B&_&_&_&_&_&C&_). auto. Qed.
+
+Lemma same_mark_all new l : forall s, sc (mark_all new l s) = sc s /\ q (mark_all new l s) = q s /\ recvd (mark_all new l s) = recvd s.
+Proof.
+  induction l as [|[f w] t IH]; intros s; cbn [mark_all]; [auto|].
+  destruct (getF f s) as [x|]; [|apply IH]. destruct (is_waiting (f_state x)); [|apply IH].
+  destruct (IH (mark_bad (negb (f_live x)) (wake w (setF f (set_state new x) s)))) as (A & B & C).
+  destruct (same_mark_bad (negb (f_live x)) (wake w (setF f (set_state new x) s))) as (A1 & B1 & C1).
+  rewrite A, B, C, A1, B1, C1. auto.
+Qed.
+
+Lemma np_try_recv_core s : np s (fst (try_recv_core s)).
+Proof.
+  unfold try_recv_core. destruct (q s) as [|v t] eqn:E; [destruct (sc s =? 0); apply np_refl|].
+  cbn [fst]. destruct (same_wake_one_send (with_recvd (recvd s ++ [v]) (with_q t s))) as (A & B & C).
+  unfold np. rewrite A, B, C. st_simpl. rewrite E. split; [lia|]. split.
+  - right. exists v. auto.
+  - intros Hq. exfalso. apply (f_equal (@length N)) in Hq. cbn [length] in Hq. clear - Hq. lia.
+Qed.
+
+Lemma np_do_close h x s : np s (fst (do_close h x s)).
+Proof.
+  unfold do_close. destruct (h_closed x); [apply np_refl|].
+  destruct (h_tx x).
+  - unfold close_tx. cbn [sc setH with_hs]. destruct (sc s =? 0); [apply np_same; reflexivity|].
+    cbn [fst]. destruct (sc (with_sc (sc s - 1) (setH h (set_closed true x) s)) =? 0).
+    + destruct (same_mark_all WClosed (arq (with_sc (sc s - 1) (setH h (set_closed true x) s))) (with_sc (sc s - 1) (setH h (set_closed true x) s))) as (A & B & C).
+      unfold np. rewrite A, B, C. st_simpl. split; [lia|]. auto.
+    + unfold np. st_simpl. split; [lia|]. auto.
+  - unfold close_rx. cbn [rc setH with_hs]. destruct (rc s =? 0); [apply np_same; reflexivity|].
+    cbn [fst]. destruct (rc (with_rc (rc s - 1) (setH h (set_closed true x) s)) =? 0).
+    + destruct (same_mark_all WClosed (asq (with_rc (rc s - 1) (setH h (set_closed true x) s))) (with_rc (rc s - 1) (setH h (set_closed true x) s))) as (A & B & C).
+      apply np_same; [rewrite A | rewrite B | rewrite C]; reflexivity.
+    + destruct (asq (with_rc (rc s - 1) (setH h (set_closed true x) s))) as [|[f w] t]; [apply np_same; reflexivity|].
+      destruct (getF f (with_rc (rc s - 1) (setH h (set_closed true x) s))) as [y|]; [|apply np_same; reflexivity].
+      destruct (is_waiting (f_state y)); [|apply np_same; reflexivity].
+      destruct (same_mark_bad (negb (f_live y)) (wake w (setF f (set_state Success y) (with_rc (rc s - 1) (setH h (set_closed true x) s))))) as (A & B & C).
+      apply np_same; [rewrite A | rewrite B | rewrite C]; reflexivity.
+Qed.
+
+Lemma same_cancel_reg f x s : sc (cancel_reg f x s) = sc s /\ q (cancel_reg f x s) = q s /\ recvd (cancel_reg f x s) = recvd s.
+Proof.
+  unfold cancel_reg. destruct (f_reg x); [|auto].
+  destruct (f_recv x); destruct (is_success (f_state x)); try (repeat split; reflexivity).
+  - match goal with |- context [fx12 ?a] => destruct (fx12 a) end; [|repeat split; reflexivity].
+    match goal with |- context [match q ?a with _ => _ end] => destruct (q a) eqn:E end; [repeat split; reflexivity|].
+    match goal with |- context [wake_one_recv ?a] => destruct (same_wake_one_recv a) as (A & B & C) end.
+    rewrite A, B, C. repeat split; reflexivity.
+  - match goal with |- context [fx12 ?a] => destruct (fx12 a) end; [|repeat split; reflexivity].
+    match goal with |- context [is_full ?a] => destruct (is_full a) end; [repeat split; reflexivity|].
+    match goal with |- context [wake_one_send ?a] => destruct (same_wake_one_send a) as (A & B & C) end.
+    rewrite A, B, C. repeat split; reflexivity.
+Qed.
+
+Lemma same_finish f (b : bool) x s1 :
+  let s2 := (let s := setF f (set_done (set_reg false x)) s1 in
+             if b then if fx06 (fx s) then with_arq (unlink f (arq s)) s else taint set_t06 (queued f (arq s)) s
+             else s) in
+  sc s2 = sc s1 /\ q s2 = q s1 /\ recvd s2 = recvd s1.
+Proof.
+  cbv zeta. destruct b; [|repeat split; reflexivity].
+  cbn [fx setF with_fs]. destruct (fx06 (fx s1)); [repeat split; reflexivity|].
+  match goal with |- context [taint ?g ?c ?a] => destruct (same_taint g c a) as (A1 & B1 & C1) end.
+  rewrite A1, B1, C1. repeat split; reflexivity.
+Qed.
+
+Lemma np_recv_try f w b x s : np s (fst (recv_try f w b x s)).
+Proof.
+  unfold recv_try. pose proof (np_try_recv_core s) as C.
+  destruct (try_recv_core s) as [s1 [v| |]]; cbn [fst] in *.
+  - destruct (same_finish f b x s1) as (A1 & B1 & C1). cbv zeta in A1, B1, C1.
+    eapply np_trans_r; [exact C | rewrite A1; lia | exact B1 | exact C1].
+  - eapply np_trans_r; [exact C|..]; destruct (queued f (arq s1)); try reflexivity; st_simpl; lia.
+  - destruct (same_finish f b x s1) as (A1 & B1 & C1). cbv zeta in A1, B1, C1.
+    eapply np_trans_r; [exact C | rewrite A1; lia | exact B1 | exact C1].
+Qed.
+
+Lemma np_poll_recv f w x s : np s (fst (poll_recv f w x s)).
+Proof.
+  unfold poll_recv. destruct (f_reg x); [|apply np_recv_try].
+  destruct (f_state x); try apply np_recv_try.
+  cbn [fx with_arq]. destruct (fx08 (fx s)).
+  - eapply np_trans_l; [| | |apply np_recv_try]; try reflexivity; st_simpl; lia.
+  - cbn [fst].
+    match goal with |- context [taint ?g ?c ?a] => destruct (same_taint g c a) as (A1 & B1 & C1) end.
+    apply np_same; st_simpl; [rewrite A1 | rewrite B1 | rewrite C1]; reflexivity.
 Qed.
